@@ -198,7 +198,7 @@ func c20Wiring(e *Env) {
 					k = 1
 				}
 				blk := i.Block().Succs[k]
-				if ret, ok := blk.Instrs[len(blk.Instrs)-1].(*ssa.Return); ok && len(ret.Results) == 1 && ret.Results[0] == ssa.Value(c) {
+				if ret, ok := blk.Instrs[len(blk.Instrs)-1].(*ssa.Return); ok && len(ret.Results) == 1 && core.RetVal(ret, 0) == ssa.Value(c) {
 					retOK = true
 				}
 			}
